@@ -781,10 +781,13 @@ package badger
 //@   assert[readonly-guard] before call Remove : !kv.opt.ReadOnly
 
 //@ func helpOpenOrCreateManifestFile
-//@   props C07
+//@   props C07 C09 C17
 //@   light
 //@   assert[readonly-guard-truncate] before call Truncate : !readOnly
 //@   assert[readonly-guard-create] before call helpRewrite : !readOnly
+//@   assert[truncated-at-replay-offset] before call Truncate : arg0 == ret0(OpenExistingFile#1) && arg1 == ret1(ReplayManifestFile#1) && ret2(ReplayManifestFile#1) == nil
+//@   assert[replay-of-the-opened-file] before call ReplayManifestFile : arg0 == ret0(OpenExistingFile#1) && arg1 == extMagic
+//@   assert[appends-go-to-the-end] before call Seek : arg1 == 0 && arg2 == io.SeekEnd
 
 //@ func createDirs
 //@   props C07
